@@ -47,7 +47,7 @@ ZeroDivs(t) == IF IsLeafK(t.k) THEN 0 ELSE IF IsUn(t.k) THEN ZeroDivs(t.c)
                ELSE ZeroDivs(t.l) + ZeroDivs(t.r) + (IF t.k = "div" /\ t.r.k = "c" /\ ~HasDigits(t.r) /\ t.r.d # 0 /\ t.r.n = 0 THEN 1 ELSE 0)
 \* a constant of the result whose value the projection could not determine and that was not carried over from the source
 InexactNew(s, o) == LET consts(t) == {x \in SubtermSet(t) : x.k = "c"} IN
-                    \E c \in consts(o) : (c.d = 0 /\ ~HasDigits(c)) \/ (HasDigits(c) /\ c \notin consts(s))
+                    \E c \in consts(o) : (c.d = 0 /\ ~HasDigits(c)) \/ (HasDigits(c) /\ c.xf = 1 /\ c \notin consts(s))
 
 (* e: a recorded step. Fields: rule, opt, hb, src (root of source tree), work (root of the working clone),
    node (the node of the working clone the rule was applied to), outcome, ha, res (root of the result),
